@@ -65,3 +65,20 @@ Definition move_dist_t3_r (rnd : Q -> Q) (time rate accel jerk : Z) (accum : opt
   let af2 := rnd (iz n - pr)%Q in
   (pos_final, Qtrunc af2).
 
+
+(* ---- rate_t3: CPython floats (binary64) ---- *)
+(* rate_t3 in CPython's arithmetic: integers are exact, jerk/2 and the products and sums that follow are binary64 floats *)
+Definition rate_t3_r (rnd : Q -> Q) (time rate accel jerk : Z) : Z :=
+  if time =? 0 then rate + accel + jerk else
+  let i1 := rate - Z.quot accel 2 + Z.quot jerk 6 in
+  let f1 := rnd (iz jerk / 2)%Q in
+  let f2 := rnd (iz accel - f1)%Q in
+  let f3 := rnd (f2 * iz time)%Q in
+  let s1 := rnd (iz i1 + f3)%Q in
+  let f4 := rnd (iz (jerk * time * time) / 2)%Q in
+  let s2 := rnd (s1 + f4)%Q in
+  Qround_he s2.
+
+(* a binary64 number: k / 2^n with |k| < 2^53 *)
+Definition rep53 (x : Q) : Prop := exists k n : Z, 0 <= n /\ Z.abs k < 2 ^ 53 /\ (x == iz k / iz (2 ^ n))%Q.
+
